@@ -68,8 +68,9 @@ def wiring(ck):
     if parse is None:
         raise AnalysisError("Args.parse not found")
     dests = []
-    for n in ast.walk(parse.node):
-        if isinstance(n, ast.Call) and isinstance(n.func, ast.Attribute) and n.func.attr == "add_argument":
+    from ..rules.common import option_declarations
+    for n in option_declarations(ck)[1]:
+        if True:
             d = [k.value.value for k in n.keywords if k.arg == "dest" and isinstance(k.value, ast.Constant)]
             if not d:
                 raise AnalysisError(f"{where(parse, n)}: add_argument without literal dest")
